@@ -6,6 +6,10 @@ env = dict(os.environ); env.pop("CONDUCTOR_VERIF", None)
 with tempfile.TemporaryDirectory() as d:
     x = os.path.join(d, "j.xml")
     cmd = base["cmd"].replace("<file>", x)
+    repo = os.environ.get("VERIF_REPO")
+    if repo:      # a scratch worktree of /repo (seeded-change evaluation)
+        cmd = cmd.replace("cd /repo", "cd " + repo)
+        env["PYTHONPATH"] = repo + "/src"
     subprocess.run(cmd, shell=True, env=env, stdout=subprocess.DEVNULL, stderr=subprocess.DEVNULL)
     passed = set()
     for tc in ET.parse(x).getroot().iter("testcase"):
